@@ -85,6 +85,24 @@ impl GuardBuf {
             }
         }
     }
+    /// the whole accessible span between the two guard pages (data + canaries)
+    pub fn span(&self) -> (u64, usize) {
+        (self.map as u64 + PAGE as u64, self.map_len - 2 * PAGE)
+    }
+    pub fn span_bytes(&self) -> Vec<u8> {
+        let (a, l) = self.span();
+        unsafe { std::slice::from_raw_parts(a as *const u8, l).to_vec() }
+    }
+    /// place the data `off` bytes into the accessible span instead (for buffers that need mapped
+    /// memory on both sides)
+    pub fn new_centered(len: usize, off: usize, shared: bool) -> GuardBuf {
+        let mut g = GuardBuf::new(len + 2 * off, false, shared);
+        unsafe {
+            g.data = g.data.add(off);
+        }
+        g.len = len;
+        g
+    }
     /// number of accessible bytes before / after the data (distance to the guards)
     pub fn slack_before(&self) -> usize {
         self.data as usize - (self.map as usize + PAGE)
@@ -275,8 +293,9 @@ pub fn panic_site(msg: &str) -> String {
 pub enum CaseEnd {
     /// the child finished the case and wrote this record
     Done(Vec<u8>),
-    /// the child was killed by this signal while running the case
-    Died(i32),
+    /// the child was killed by this signal while running the case; the bytes are whatever the
+    /// `on_death` callback of `run_batch_ex` collected in the parent right after the death
+    Died(i32, Vec<u8>),
     /// emitted code did not finish within the (generous) CPU-time limit, even when re-run alone
     CpuTimeout,
     /// wall-clock watchdog / fork failure: no verdict
@@ -286,6 +305,12 @@ pub enum CaseEnd {
 /// Run cases `0..n` in forked children. `f(i, out)` runs case i and appends its result record to
 /// `out`. A child that dies is replaced by a fresh one that continues after the fatal case.
 pub fn run_batch<F: Fn(usize, &mut Vec<u8>)>(n: usize, cpu_secs: u64, cpu_alone_secs: u64, f: F) -> Vec<CaseEnd> {
+    run_batch_ex(n, cpu_secs, cpu_alone_secs, f, &mut |_| Vec::new())
+}
+
+/// Like `run_batch`; `on_death(i)` runs in the parent immediately after case `i` killed its child
+/// (before any later case runs), e.g. to inspect MAP_SHARED memory the dying case may have touched.
+pub fn run_batch_ex<F: Fn(usize, &mut Vec<u8>)>(n: usize, cpu_secs: u64, cpu_alone_secs: u64, f: F, on_death: &mut dyn FnMut(usize) -> Vec<u8>) -> Vec<CaseEnd> {
     const AREA: usize = 16 << 20;
     let mut ends: Vec<Option<CaseEnd>> = (0..n).map(|_| None).collect();
     let mut start = 0usize;
@@ -367,11 +392,11 @@ pub fn run_batch<F: Fn(usize, &mut Vec<u8>)>(n: usize, cpu_secs: u64, cpu_alone_
                             CaseEnd::Done(s[24..24 + len].to_vec())
                         }
                         ChildEnd::Signal(s) if s == libc::SIGXCPU || s == libc::SIGKILL => CaseEnd::CpuTimeout,
-                        ChildEnd::Signal(s) => CaseEnd::Died(s),
+                        ChildEnd::Signal(s) => CaseEnd::Died(s, on_death(cur)),
                         other => CaseEnd::Inconclusive(format!("re-run ended with {other:?}")),
                     });
                 } else {
-                    ends[cur] = Some(CaseEnd::Died(sig));
+                    ends[cur] = Some(CaseEnd::Died(sig, on_death(cur)));
                 }
                 start = cur + 1;
             }
